@@ -2,6 +2,7 @@ pub mod c01;
 pub mod c05;
 pub mod c08;
 pub mod c10;
+pub mod c11;
 pub mod c13;
 pub mod c14;
 pub mod c15;
